@@ -31,6 +31,11 @@ def initials(tier, seed):
         variants = 2 if quick and nb == 3 else 4
         cnt = len(irgen.cfg_skeletons(nb)) * variants
         out += [{"fam": "l3", "nb": nb, "variants": variants, "i": i} for i in range(cnt)]
+    if quick:
+        # a complete seed slice of the 4-block skeletons (1/16), one rotation each
+        sk = irgen.cfg_skeletons(4)
+        idx = list(range(seed % 16, len(sk), 16))
+        out += [{"fam": "l3s", "nb": 4, "si": i, "v": (i // 16 + seed) % len(irgen.L3_BODIES)} for i in idx]
     if not quick:
         sk = irgen.cfg_skeletons(4)
         # seed slice of the 4-block skeletons: every 8th skeleton starting at seed % 8, one rotation each
